@@ -145,14 +145,17 @@ func (e *Engine) scanGlobals() {
 		}
 	}
 	// standard-library sentinels get ids 1..999, module-private ones 1000..1999
-	id, mid := int64(0), int64(999)
+	id, mid, lid := int64(0), int64(999), int64(1499)
 	for _, g := range errGlobals {
 		if len(e.storedGlobals[g]) > 0 {
 			continue
 		}
-		if strings.HasPrefix(g.Pkg.Pkg.Path(), modulePath) {
+		if g.Pkg.Pkg.Path() == modulePath {
 			mid++
 			e.sentinels[g] = mid
+		} else if strings.HasPrefix(g.Pkg.Pkg.Path(), modulePath) {
+			lid++
+			e.sentinels[g] = lid
 		} else {
 			id++
 			e.sentinels[g] = id
